@@ -21,7 +21,8 @@ import subprocess
 import vlib
 
 SEGS = ["a", "b", ":x", ":y", "*", ""]
-SEGS_WIDE = ["a", "b", ":x", ":y", "*", "", ":", "**", "a*"]
+SEGS_WIDE = ["a", "b", ":x", ":y", "*", "", ":", "**", "a*", "a:b"]
+SEGS_COLON = ["a", "a:b", ":x", "*", ""]          # a colon after position 0 is a literal (starts_with, not contains)
 SEGS_DEEP = ["a", "b", ":x", "*", ""]
 
 
@@ -216,7 +217,10 @@ def gen_run(r):
     p_err = r.choice([0.0, 0.0, 0.1, 0.25])
     for i in range(nmsg):
         k = r.random()
-        typ = "c" if k < 0.85 else ("k" if k < 0.93 else "r")      # k: a call that also carries a REPLY_SERIAL field
+        # c call, k call that also carries a REPLY_SERIAL field, s signal (always has a path),
+        # r method return and e error (with or without a path)
+        typ = "c" if k < 0.6 else ("k" if k < 0.68 else ("s" if k < 0.84 else ("r" if k < 0.92 else "e")))
+        has_path = typ in "cks" or r.random() < 0.5
         k = r.random()
         res = "E" if k < p_err else ("S" if k < p_err + 0.45 else "N")
         body = "".join(r.choice("abcxyz019 _") for _ in range(r.randint(0, 6))) if res == "S" else ""
@@ -226,7 +230,7 @@ def gen_run(r):
                 nr.append((gen_route(r, paths[i + 1:] or paths), nextid[0]))
                 nextid[0] += 1
         sender = None if r.random() < 0.15 else ":1.%d" % r.randint(1, 99)
-        msgs.append({"serial": 10 + i, "typ": typ, "obj": paths[i] if typ != "r" else None, "sender": sender,
+        msgs.append({"serial": 10 + i, "typ": typ, "obj": paths[i] if has_path else None, "sender": sender,
                      "res": res, "body": body, "newroutes": nr})
     return {"routes": routes, "msgs": msgs}
 
@@ -253,14 +257,18 @@ def parse_out(line):
     return d
 
 
+def is_call(m):
+    return m["typ"] in ("c", "k")
+
+
 def call_replies(case, replies):
-    """the replies that answer method calls (the property is silent about answers to other messages).
-    Replies are written in message order: when there is one per successfully handled message they are
-    attributed by position, otherwise by reply serial."""
+    """the replies that answer method calls (the property speaks of calls). Replies are written in message
+    order: when there is one per successfully handled message they are attributed by position,
+    otherwise by reply serial."""
     ok = [m for m in case["msgs"] if m["res"] != "E"]
     if len(replies) == len(ok):
-        return [x for m, x in zip(ok, replies) if m["typ"] != "r"]
-    noncall = {str(m["serial"]) for m in case["msgs"] if m["typ"] == "r"}
+        return [x for m, x in zip(ok, replies) if is_call(m)]
+    noncall = {str(m["serial"]) for m in case["msgs"] if not is_call(m)}
     return [x for x in replies if x.split(";")[1] not in noncall]
 
 
@@ -292,7 +300,7 @@ def judge_run(case, out, sets):
     want = []
     for i in range(nproc):
         m = msgs[i]
-        if m["typ"] != "r" and m["res"] != "E":
+        if is_call(m) and m["res"] != "E":
             want.append(m)
     got = call_replies(case, out["replies"])
     if len(got) != len(want):
@@ -334,12 +342,15 @@ def check_run(ctx, exe, drv, cases):
         ctx.case(("run", run_line(c)), nontrivial=nt,
                  sample={"case": run_line(c), "impl": li} if nt and len(c["msgs"]) >= 4 and len(ctx.samples) < 6 else None)
         ctx.count("run:msgs=%d" % len(c["msgs"]))
+        for m in c["msgs"]:
+            ctx.count("run:msg_type=%s%s" % ({"c": "call", "k": "call+reply_serial", "s": "signal", "r": "method_return", "e": "error"}[m["typ"]],
+                                             "" if m["obj"] is not None else "(no path)"))
         ctx.count("run:failing_handlers=%d" % om["end"].count("handler"))
         ctx.count("run:routed_invocations", routed)
         ctx.count("run:default_invocations", len(om["log"]) - routed)
         ctx.count("run:routes_added_by_handlers", added)
         same = (oi["log"] == om["log"] and oi["end"] == om["end"]
-                and call_replies(c, oi["replies"]) == call_replies(c, om["replies"]))
+                and oi["replies"] == om["replies"])       # everything written, for calls and non-calls alike
         if not same:
             bad.append((c, li, lm))
     if bad:
@@ -442,8 +453,8 @@ def run(ctx):
     ctx.rule = ("(a) one-entry PathMatcher::get_match on ALL pattern x path pairs built from 1..4 segments of {a,b,:x,:y,*,\"\"} "
                 "(enumerated inside harness and extracted model; thorough adds 1..5 segments of {a,b,:x,*,\"\"} and 1..3 of a wider "
                 "alphabet with ':', '**', 'a*'), plus generated long/odd pairs and 2-5-entry matchers built around a query; "
-                "(b) DispatchConn::run over a scripted socket: 0-4 initial routes, 1-8 incoming messages (calls, a few "
-                "method returns without path), handlers returning Some/None/Err and adding routes. Non-trivial: matcher "
+                "(b) DispatchConn::run over a scripted socket: 0-4 initial routes, 1-8 incoming messages (calls, signals "
+                "with a path, method returns and errors with and without a path), handlers returning Some/None/Err and adding routes. Non-trivial: matcher "
                 "pair whose pattern has a named or wildcard part and whose path is not shorter than the pattern; "
                 "multi-entry case with at least one matching entry; run in which a non-default handler is invoked or a "
                 "route is added. Distinct = distinct inputs (hashed); enumerated pairs are distinct by construction.")
@@ -472,9 +483,10 @@ def run(ctx):
     # (a) exhaustive enumeration
     total = enum_compare(ctx, exe, drv, SEGS, 4, "6 segs<=4")
     ctx.extra["exhaustive_matcher_scope"] = "all %d pairs: patterns and paths of 1..4 segments over %s" % (total, SEGS)
+    enum_compare(ctx, exe, drv, SEGS_COLON, 3, "colon segs<=3")
     if thorough:
         enum_compare(ctx, exe, drv, SEGS_DEEP, 5, "5 segs<=5")
-        enum_compare(ctx, exe, drv, SEGS_WIDE, 3, "9 segs<=3")
+        enum_compare(ctx, exe, drv, SEGS_WIDE, 3, "10 segs<=3")
     ctx.exhaustive = False
 
     # (a) generated pairs beyond the enumerated scope
